@@ -71,8 +71,8 @@ pub fn inject(c: &mut Cluster, from: usize, node: usize, svc: u8, gen: u64) {
     let byz = c.sc.byz.first().cloned();
     let member = c.names[(node + 1) % c.sc.n];
     let kind = match svc {
-        SVC_CONSENSUS => *r.pick(&[0u32, 1, 2, 3, 4, 5, 6, 10, 11, 11, 12, 12, 13, 14, 15, 16, 17, 18, 19, 20]),
-        SVC_MEMPOOL => *r.pick(&[0u32, 1, 2, 3, 4, 5, 6, 30, 30, 31, 32, 33, 34, 34]),
+        SVC_CONSENSUS => *r.pick(&[0u32, 1, 2, 3, 4, 5, 6, 10, 11, 11, 12, 12, 13, 14, 15, 16, 17, 18, 19, 20, 21, 21, 22, 23, 24]),
+        SVC_MEMPOOL => *r.pick(&[0u32, 1, 2, 3, 4, 5, 6, 30, 30, 31, 32, 33, 34, 34, 35, 36]),
         _ => *r.pick(&[0u32, 1, 2, 3, 40, 40, 41]),
     };
     let recent: Vec<Vec<u8>> = c.recent_frames.get(&svc).cloned().unwrap_or_default();
@@ -186,6 +186,31 @@ pub fn inject(c: &mut Cluster, from: usize, node: usize, svc: u8, gen: u64) {
                 frame = Some(bincode::serialize(&m).unwrap());
             }
         }
+        21 => {
+            // Boundary digests from a known member: all zero (the genesis digest), all ones.
+            let d = if r.chance(0.7) { Digest::default() } else { Digest([0xff; 32]) };
+            frame = Some(bincode::serialize(&ConsensusMessage::SyncRequest(d, member)).unwrap());
+            c.obs.lock().unwrap().probe("hostile.sync-request-boundary-digest");
+        }
+        22 => {
+            // A sync request whose origin is the target itself.
+            let me = c.names[node];
+            let d = stored_key(c, node, false, &mut r).unwrap_or_default();
+            frame = Some(bincode::serialize(&ConsensusMessage::SyncRequest(d, me)).unwrap());
+        }
+        23 => {
+            // TC of the highest possible round without votes; QC-less proposal with a zero author.
+            frame = Some(bincode::serialize(&ConsensusMessage::TC(TC { round: u64::MAX, votes: vec![] })).unwrap());
+        }
+        24 => {
+            let blk = Block { qc: QC::genesis(), tc: None, author: PublicKey::default(), round: r.range(0, 3), payload: vec![], signature: Signature::default() };
+            frame = Some(bincode::serialize(&ConsensusMessage::Propose(blk)).unwrap());
+        }
+        35 => {
+            let d = if r.chance(0.5) { Digest::default() } else { Digest([0xff; 32]) };
+            frame = Some(bincode::serialize(&MempoolMessage::BatchRequest(vec![d], member)).unwrap());
+        }
+        36 => frame = Some(bincode::serialize(&MempoolMessage::BatchRequest(vec![], member)).unwrap()),
         30 => {
             // A batch request naming a consensus block's key in the shared store.
             if let Some(d) = stored_key(c, node, false, &mut r) {
